@@ -952,8 +952,16 @@ class BaseRepo:
         haves = self.object_store.find_common_revisions(graph_walker)
 
         # Deal with shallow requests separately because the haves do
-        # not reflect what objects are missing
-        if getattr(graph_walker, "shallow", set()) or unshallow:
+        # not reflect what objects are missing. A protocol walker keeps the
+        # boundary the client announced in client_shallow (its shallow set is
+        # only the boundary computed for this request): a client that is
+        # shallow anywhere does not hold the ancestry of its haves, even when
+        # this request neither cuts nor unshallows anything.
+        if (
+            getattr(graph_walker, "shallow", set())
+            or unshallow
+            or getattr(graph_walker, "client_shallow", set())
+        ):
             # TODO: filter the haves commits from iter_shas. the specific
             # commits aren't missing.
             haves = []
